@@ -130,6 +130,16 @@ func TestVerifC15Stale(t *testing.T) {
 		q.mtx.Lock()
 		unlocks := append([]string(nil), q.unlocks...)
 		q.mtx.Unlock()
+		// On a heavily loaded machine the 20 ms stale-lock timer can fire before the script is exhausted (select
+		// then takes the timer although a notification is pending).  What fixStaleLocks saw is then exactly the
+		// script up to the last look it took, followed by the timer: that is the case that is recorded.
+		early := ""
+		mtx.Lock()
+		if used := idx + 1; used >= 1 && used < len(snaps) {
+			snaps = snaps[:used]
+			early = "short"
+		}
+		mtx.Unlock()
 		var snS []string
 		for _, sn := range snaps {
 			var rs, es []string
@@ -143,7 +153,7 @@ func TestVerifC15Stale(t *testing.T) {
 		}
 		term := fmt.Sprintf("mkst %s %s", gList(snS), gList(unlocks))
 		desc := map[string]interface{}{"snapshots(unknown,running,ents)": snS, "unlocked": unlocks, "extra_looks": extra}
-		cs.Add(i, term, desc, len(unlocks) > 0, fmt.Sprintf("snaps=%d", nsn), fmt.Sprintf("unlocked=%d", len(unlocks)))
+		cs.Add(i, term, desc, len(unlocks) > 0, fmt.Sprintf("snaps=%d", len(snaps)), fmt.Sprintf("unlocked=%d", len(unlocks)), "timer="+early)
 	}
 	cs.Write()
 }
